@@ -100,6 +100,7 @@ func (qs *QueryStore) RebuildIndexes() error {
 		}
 	}
 
+	vhook("bs.rebuild.dropped")
 	// Create new index entries in a single transaction
 	return qs.st.DB.Update(func(txn *badger.Txn) error {
 		t := reflect.TypeOf(qs.st.Type())
@@ -174,6 +175,7 @@ func (qs *QueryStore) handleChange(id string, before, after interface{}) {
 }
 
 func (qs *QueryStore) updateIndex(id string, before, after interface{}) error {
+	vhook("bs.idx.start", id)
 	updated := false
 	errmsg := ""
 	err := qs.st.DB.Update(func(txn *badger.Txn) error {
@@ -212,6 +214,7 @@ func (qs *QueryStore) updateIndex(id string, before, after interface{}) error {
 		}
 		return nil
 	})
+	vhook("bs.idx.committed", id, err)
 	if err != nil {
 		return err
 	}
@@ -229,6 +232,7 @@ func (qs *QueryStore) updateIndex(id string, before, after interface{}) error {
 			cb(qc)
 		}
 	}
+	vhook("bs.idx.notified", id, updated)
 	return nil
 }
 
